@@ -365,6 +365,9 @@ def opWinfo : P (List String) := do
     iters := iters.push (← nat)
     reasons := reasons.push (← tok)
     l2 := l2.push (← flt)
+  -- optional: the duration of the run — not an input of `writeInfo` (its line is written as `-`)
+  let c ← get
+  if c.pos < c.toks.size then let _ ← flt
   pure (showLines (writeInfo r (maxL2 l2.toList) seed iters.toList reasons.toList l2.toList))
 
 /-- `cli <nargs> args… <adjbytes> <affbytes|->` → the call record -/
